@@ -595,6 +595,59 @@ def check_is_prime(rep, prog, fn):
     return n
 
 
+def check_trial_division(rep, prog, fn):
+    """R18f: the trial-division loop tries the divisor sqrt(p) itself: its condition, folded with t := q and p := q*q,
+    holds for odd primes q (otherwise squares of primes are reported prime)"""
+    what = 'trial division reaches floor(sqrt(p)): the square of a prime is not reported prime'
+    p = fn.param_ids[0] if fn.param_ids else None
+    n = 0
+    for lp in fn.body.walk():
+        if lp.k not in ('WhileStmt', 'ForStmt', 'DoStmt') or lp.cond is None or lp.body is None:
+            continue
+        # divisor variable: p % t == 0 -> return false inside the loop
+        tvar = None
+        for d in lp.body.walk():
+            if d.k in ('BinaryOperator', 'CXXOperatorCallExpr') and d.op == '%':
+                ops = d.c if d.k == 'BinaryOperator' else d.c[1:]
+                if len(ops) == 2 and ex.var_of(ops[0]) == p and ex.var_of(ops[1]) is not None:
+                    tvar = ex.var_of(ops[1])
+        if tvar is None:
+            continue
+        n += 1
+        defs = {}
+        for d in fn.walk():
+            if d.k == 'VarDecl' and d.c and d.decl_id != tvar and len(ex.assignments_to(fn, d.decl_id)) == 1:
+                defs[d.decl_id] = d.c[0]
+        bad = None
+        unknown = None
+        for q in (3, 5, 7, 11, 13, 101):
+            def bind(s_, q=q):
+                v = ex.var_of(s_)
+                if v == tvar:
+                    return q
+                if v == p:
+                    return q * q
+                return None
+            try:
+                if not ex.ceval(lp.cond, bind, defs):
+                    bad = q
+                    break
+            except ex.Unknown as e:
+                unknown = str(e)
+                break
+        # start value and step
+        starts = [rhs for (d, rhs) in ex.assignments_to(fn, tvar) if rhs is not None and not lp.body.is_ancestor_of(d) and
+                  not (lp.role('inc') is not None and lp.role('inc').is_ancestor_of(d))]
+        if unknown:
+            rep.undecided('R18f', lp, fn, what, 'loop condition could not be evaluated: ' + unknown)
+        elif bad:
+            rep.violation('R18f', lp, fn, what, 'with p = %d and divisor candidate t = %d the loop condition `%s` is false: %d is never tried, so %d is '
+                          'reported prime' % (bad * bad, bad, lp.cond.text(30), bad, bad * bad), key='R18f|%s|bound' % fn.g)
+        else:
+            rep.ok('R18f', lp, fn, what, 'condition holds at t = q, p = q*q for q in {3,5,7,11,13,101}')
+    return n
+
+
 def is_small_prime(c):
     return c in (2, 3, 5, 7, 11, 13)
 
@@ -662,6 +715,7 @@ def run_on(rep, prog):
             check_mult_inverse(rep, prog, fn)
         elif fn.g == 'parmcb::primes::is_prime':
             check_is_prime(rep, prog, fn)
+            check_trial_division(rep, prog, fn)
         elif fr.get('rec') == 'parmcb::SpVecFP':
             name = fr['name']
             check_fp_ranges(rep, prog, fn)
@@ -683,6 +737,7 @@ def run(rep, tier):
     rep.rule('R18c', 'SpVecFP merges, compound operators and copy operations', floor=6)
     rep.rule('R18d', 'is_prime constant-divisor shortcuts exclude the divisor itself', floor=1)
     rep.rule('R18e', 'get_mult_inverse contract', floor=1)
+    rep.rule('R18f', 'trial division bound includes the square root', floor=1)
     tus = [env.witness_tu()]
     if tier == 'thorough':
         tus += [t for t in env.repo_tus() if 'fp' in os.path.basename(t)]
@@ -698,7 +753,7 @@ def run(rep, tier):
         pp = env.extract([pos], 'full', ('first:-I' + os.path.join(env.WITNESS, 'positive', 'broken_include2'),))[pos]
         prep = type(rep)(rep.prop, rep.tier)
         run_on(prep, pp)
-        for r in ('R18a', 'R18b', 'R18c', 'R18d', 'R18e'):
+        for r in ('R18a', 'R18b', 'R18c', 'R18d', 'R18e', 'R18f'):
             rep.positive(r, 'witness/positive/c18_fp.cc', any(i.status == 'violation' and i.rule == r for i in prep.instances.values()))
     except env.AnalysisBroken as e:
         rep.analysis_broken('positive example c18_fp.cc does not parse: ' + str(e)[:300])
